@@ -54,13 +54,14 @@ PROPS = {
                      "span ids in one trace are fixed-width hex strings (string order = numeric order), as produced by the OTLP ingest"],
     ),
     "C18": dict(
+        handlers=["C08"],
         suites=[("csf", 4000, 60000), ("gorilladec", 1000, 20000)],
         trusted_base=["CRC-32 is a parameter of the model (any function)"],
         decided_by_proof="checksummed chunk reader: intact multi-chunk reads, every single-byte change of a chunk (header or data) and every truncation is detected modulo an explicit checksum accident; guard: not the 4 magic bytes at file offset 0 (known finding, counterexample theorem)",
         partial="length-prefixed decoders (ReadDictEnc, block summaries, segstats, pqmr, TSO/TSG), per-segment error collection and process survival: correspondence / end-to-end only",
     ),
     "C14": dict(
-        suites=[("ret", 1200, 20000), ("rete2e", 4, 14)],
+        suites=[("ret", 1200, 6000), ("rete2e", 4, 12)],
         facts={
             "DeleteSegmentData.order": ["blob.DeleteBlob", "blob.DeleteBlob", "RemoveSegBasedirs", "DeleteSegmentKey", "deleteSegmentsFromEmptyPqMetaFiles", "RemoveSegMetas"],
             "DoRetentionBasedDeletion.order": ["GetRetentionTimeMs", "ReadLocalSegmeta", "ReadMetricsMeta", "DeleteSegmentData", "DeleteMetricsSegmentData", "DeleteEmptyIndices"],
@@ -84,7 +85,7 @@ PROPS = {
         partial="JSON classification of lines (jsonparser), store-level failures after acknowledgement, searchability after flush, HTTP layer, Splunk/Loki entry points: correspondence/E2E only",
     ),
     "C16": dict(
-        suites=[("time", 8000, 150000)],
+        suites=[("time", 8000, 150000), ("timeproto", 36, 108)],
         facts={
             "ExtractTimeStamp.literals": ["0", "0", "0", "0", "1000", "1000000", "1000", "0"],
             "ConvertTimestampToMillis.literals": ["10", "64", "1000000", "1000", "1000000", "0"],
@@ -96,8 +97,8 @@ PROPS = {
             "time.Parse over the layout lists is an input of the model (computed by time.Parse in the harness over its own copy of the two lists; a changed list in /repo shows up as a correspondence mismatch)",
             "jsonparser.Get's tokenisation is exercised, not modelled: the harness builds well-formed documents around the scalar",
         ],
-        decided_by_proof="time-unit logic of ingest: for every instant of the plausible window (1973-03-03…2286; ns from 2001-09-09) in seconds, milliseconds (JSON number or digit string) and nanoseconds (digit string) ExtractTimeStamp returns that instant in ms; exact behaviour for numeric nanoseconds (counterexample + guarded theorem), microseconds, early nanoseconds and fractional seconds; arrival time (0/now) exactly for absent key, non-scalars and the characterised unparseable/zero shapes; the regenerated thresholds separate the unit windows; OTLP/OpenTSDB/remote-write/PromQL-time reduction to uint32 seconds on the regenerated kernels",
-        partial="field/attribute/identifier preservation across the protocol decoders (ES bulk, Splunk HEC, Loki, OTLP logs/traces/metrics, OpenTSDB, remote write) and which JSON key each decoder hands to ExtractTimeStamp (e.g. HEC `time`, OTLP `time_unix_nano`): NOT covered by this slice; date-layout strings: correspondence only (time.Parse abstracted); float-path inputs beyond `<s>.<fff>`: correspondence only",
+        decided_by_proof="time-unit logic of ingest, at full strength: for every instant of the plausible window (1973-03-03…2286; ns 2001-09-09…2262) in seconds, milliseconds and nanoseconds, as JSON number or digit string, ExtractTimeStamp returns that instant in ms (time_preserved); fractional seconds <s>.<fff> keep their milliseconds (through the binary64 rounding model); exact behaviour for microseconds and early nanoseconds; arrival time (0/now) exactly for absent key, non-scalars and the characterised unparseable/zero shapes; hand-over in ProcessIndexRequestPle (record time wins, handler time kept, arrival only without a record time); the regenerated thresholds separate the unit windows; OTLP/OpenTSDB/remote-write/PromQL-time reduction to uint32 seconds on the regenerated kernels",
+        partial="field/attribute/identifier preservation across the protocol decoders: NOT covered. Event TIME per protocol (ES bulk, OTLP logs, Loki JSON push, Splunk HEC): end-to-end correspondence only (suite timeproto: post, flush, search), a few dozen cases per run; OTLP traces, Loki protobuf push, ES single-doc API and the metrics protocols' HTTP layers are not exercised. Date-layout strings: correspondence only (time.Parse abstracted); float-path inputs beyond <s>.<fff>: correspondence only",
         assumptions=["GOARCH=amd64 for the float→integer conversions of out-of-range values"],
     ),
     "C17": dict(
@@ -206,6 +207,31 @@ PROPS = {
         assumptions=["one SegStore per index (one stream id per index and node)", "rotated segments are not deleted while the modelled queries run (retention is property C14)",
                      "`* | stats count` over a time range enclosing every segment takes the segment-statistics path that counts the record number captured by the snapshot (segquery.go applyAggOpOnSegments)"],
     ),
+    "C19": dict(
+        suites=[("path", 4000, 60000)],
+        trusted_base=["lexical model: symbolic links inside the data directory are outside the model (the harness sandbox contains none)",
+                      "route patterns are read from pkg/server/{query,ingest}/server.go by a regular expression (fallback: the patterns of the reference tree, counted in the evidence as route:fallback) and fed to the real fasthttp/router",
+                      "for names whose target would lie outside the harness sandbox the real operation is not executed; only the real validator function it calls is asked (evidence tag gate:validator)"],
+        decided_by_proof="filepath.Clean for every string (idempotent, normal form without '.', '' and with '..' only as the leading block of a relative path); filepath.Join against an absolute base for every name (inside the base iff the name's segment walk never climbs above its start); for each of the twelve path builders and EVERY client value passing the validation as coded, the built path is inside the data dir (lookup upload/get/delete, inputlookup, alias file, index mapping file, GetBaseSegDir, GetBaseVTableDir, GetSuffixFile, tags-tree file, dashboard details, scroll results); for the seven builders repaired by fix: commits the pre-fix definitions are kept with their counterexample theorems",
+        partial="completeness of the builder list is NOT proved (found by reading and grep for filepath.Join/os.Open/os.Create/os.Remove/os.WriteFile reachable from request values; a listing aid); dashboard update by body id (guarded by membership in the server-side folder structure), default dashboards (defaultDBs/ relative to the working directory), the SPL parser producing the inputlookup file name, index names that were stored before the fix, symlinks and OS path resolution beyond the sandboxed real operations: correspondence/reading only",
+        assumptions=["the data path is absolute and made of ordinary segments, the host id is one ordinary segment", "fasthttp/router hands a named parameter to the handler as one raw, non-empty path segment without '/' (exercised with the real router in every run)",
+                     "an index name reaches GetBaseSegDir/GetBaseVTableDir/GetSuffixFile only through es/writer.ProcessIndexRequestPle / vtable.AddVirtualTable, a tag key reaches the tags tree only through metrics.EncodeDatapoint (both entry points are exercised for real inside the sandbox)"],
+    ),
 }
 
 NOT_YET = {}
+
+
+def handlers_of(pid):
+    """Oracle handler modules (lean/Oracle/<name>.lean) needed by the suites of a property"""
+    c = PROPS[pid]
+    hs = [pid]
+    for su in c.get("suites", []):
+        if su[0].startswith("e2e_c") and "E2E" not in hs:
+            hs.append("E2E")
+        if su[0] == "e2e_metrics" and "E2EM" not in hs:
+            hs.append("E2EM")
+    for h in c.get("handlers", []):
+        if h not in hs:
+            hs.append(h)
+    return hs
